@@ -493,6 +493,12 @@ def cmd_check(prop, tier):
         reported.append({'sig': sig, 'detail': sv['detail'], 'replay': path, 'jobs': len(vs)})
         if exit_code == 0:
             exit_code = 1
+    # the wall-clock watchdog is the only input of a verdict that the seed does not decide: an unconfirmed
+    # timeout under machine load is neither a finding nor a harness defect
+    soft = [u for u in unconfirmed if 'HANG' in u or 'TIMEOUT' in u]
+    if soft:
+        print('note: wall-clock timeouts that did not reproduce in fresh processes were dropped: %s' % soft)
+    unconfirmed = [u for u in unconfirmed if u not in soft]
     if unconfirmed and not reported:
         # nothing confirmed, something seen that does not replay: a harness problem, not a finding
         print('HARNESS-NONDETERMINISM: %d candidate signature(s) seen but none reproduced in fresh processes: %s' % (len(unconfirmed), unconfirmed))
